@@ -116,7 +116,10 @@ func genC37Ops(maxSteps int) *rapid.Generator[[]c37Op] {
 		// per-sequence bias so that some sequences are join-heavy (nodes with many addresses) and others churn
 		joinPct := rapid.SampledFrom([]int{80, 70, 60, 50}).Draw(t, "joinPct")
 
-		return rapid.SliceOfN(genC37Op(joinPct), 1, maxSteps).Draw(t, "ops")
+		// drawn minimum length (rapid's own slice lengths are mostly short); shrinks towards 1, then elements can be deleted
+		minN := rapid.IntRange(1, maxSteps).Draw(t, "minSteps")
+
+		return rapid.SliceOfN(genC37Op(joinPct), minN, maxSteps).Draw(t, "ops")
 	})
 }
 
@@ -378,7 +381,7 @@ func TestC37(t *testing.T) {
 
 	maxSteps := r.N(30, 60)
 
-	r.Checks(1000, 50000)
+	r.Checks(1500, 50000)
 	r.ShrinkTime(20 * time.Second)
 	rapid.Check(t, func(rt *rapid.T) {
 		ops := genC37Ops(maxSteps).Draw(rt, "ops")
